@@ -68,6 +68,8 @@ def _table_ids():
     except OSError:
         return set()
     txt = txt[txt.find("def curves"):]      # base and extra curve tables
+    if "def edCurves" in txt:
+        txt = txt[:txt.find("def edCurves")]  # the Edwards table is offered through ed_param in the C17 streams (judged against the table there)
     return {int(m.group(1)) for m in re.finditer(r'name := "\w+", id := (\d+), field :=', txt)}
 
 
